@@ -247,7 +247,7 @@ def attack(ctx, chk, defect):
         c = obs_class(o, ref)
         chk.nreq += 1
         ctx.count(('attack', defect, i))
-        if matches(c, final):
+        if (c['bad'] or c['raised'] == 'yes') and matches(c, final):
             hit = (o, c)
             break
     ctx.cov['replayed_behaviours'] += 1
